@@ -222,7 +222,7 @@ def gen_opa_value(op, t, sform, shape, srcform, tier):
     return h
 
 
-def gen_opa_index(op, t, sform, shape, mode, tier):
+def gen_opa_index(op, t, sform, shape, mode, tier, agree=False):
     """L1: the op-assign range structs, built as the set-range arms build them.
     mode: RS  x[[i..]] op= s      (index vector, scalar source)          <Op>Assign1DRS
           RB  x[mask]   op= s      (logical mask, scalar source)          <Op>Assign1DRB
@@ -243,6 +243,9 @@ def gen_opa_index(op, t, sform, shape, mode, tier):
     K = 2                      # index vector length
     if mask:
         b.append("let ix: [bool; %d] = kani::any();" % dim)
+        if agree:
+            # true bits form a prefix: position i and `i-th addressed element` coincide (see the known finding C04-mask-vector-source-by-position)
+            b.append("kani::assume(%s);" % " && ".join("(ix[%d] || !ix[%d])" % (i, i + 1) for i in range(dim - 1)))
         b.append("let ixc = Ref::new(DVector::<bool>::from_vec(ix.to_vec()));")
     else:
         b.append("let ix: [usize; %d] = kani::any();" % K)
@@ -265,9 +268,10 @@ def gen_opa_index(op, t, sform, shape, mode, tier):
     if not two_d:
         if mask:
             if vec_src:
-                # <op>_assign_1d_range_vec_b: sink[i] op= source[i] at the true positions (source indexed by position)
+                # the i-th addressed element is combined with the i-th source element
+                b.append("let mut nth: usize = 0;")
                 for i in range(dim):
-                    b.append("if ix[%d] %s" % (i, upd(str(i), "src[%d]" % i)))
+                    b.append("if ix[%d] { %s nth += 1; }" % (i, upd(str(i), "src[nth]")))
             else:
                 for i in range(dim):
                     b.append("if ix[%d] %s" % (i, upd(str(i), "src[0]")))
@@ -296,8 +300,8 @@ def gen_opa_index(op, t, sform, shape, mode, tier):
     if mask:
         b.append("kani::cover!(%s, \"VP:reached-partial-mask\");" % " && ".join(("ix[%d]" if i % 2 == 0 else "!ix[%d]") % i for i in range(dim)))
     b.append("forget(f); forget(sc); forget(rc); forget(ixc);")
-    name = "c04_opa_%s_%s_%s%dx%d_%s" % (op.lower(), t.lower(), sform.lower(), R, C, mode.lower())
-    h = H(name, "    " + "\n    ".join(b), opa_where(op), domain="accept", key="L1/%sAssign%s/%s/%s" % (op, struct, t, sform),
+    name = "c04_opa_%s_%s_%s%dx%d_%s%s" % (op.lower(), t.lower(), sform.lower(), R, C, mode.lower(), "_agree" if agree else "")
+    h = H(name, "    " + "\n    ".join(b), opa_where(op), domain="accept", key="L1/%sAssign%s/%s/%s%s" % (op, struct, t, sform, "/agree" if agree else ""),
           desc="%sAssign%s<%s> on a %dx%d %s from an arbitrary pre-state (%s): addressed elements become old %s source, every other element and the "
                "shape unchanged" % (op, struct, t, R, C, sform, {"RS": "two distinct linear indices, scalar source", "RB": "symbolic mask, scalar source",
                "RV": "two distinct linear indices, vector source", "RVB": "symbolic mask, vector source", "AS": "two distinct row indices, all columns, scalar source",
@@ -307,6 +311,123 @@ def gen_opa_index(op, t, sform, shape, mode, tier):
           unwind=max(N, K) + 2, tier=tier, group="opa-index")
     from . import c01
     h.slice = c01.l1_slice("math")
+    return h
+
+
+# ------------------------------------------------------------------------------------------------ L1: the Assign*/Set* structs
+SET_L1 = {
+    # mode: (struct, row selector, column selector)   selectors: lin-ix / lin-mask (1-D), ix / mask / one / all (2-D)
+    "1DRS": ("Assign1DRS", "lin-ix", None), "1DRB": ("Assign1DRB", "lin-mask", None),
+    "1DRV": ("Assign1DRV", "lin-ix", None), "1DRVB": ("Assign1DRVB", "lin-mask", None),
+    "2DARS": ("Set2DARS", "all", "ix"), "2DARB": ("Set2DARB", "all", "mask"),
+    "2DRAS": ("Set2DRAS", "ix", "all"), "2DRAB": ("Set2DRAB", "mask", "all"),
+    "2DRSS": ("Assign2DRSS", "ix", "one"), "2DRSB": ("Assign2DRSB", "mask", "one"),
+    "2DSRS": ("Assign2DSRS", "one", "ix"), "2DSRB": ("Assign2DSRB", "one", "mask"),
+    "2DRRS": ("Assign2DRRS", "ix", "ix"), "2DRRBB": ("Assign2DRRBB", "mask", "mask"),
+    "2DRRBU": ("Assign2DRRBU", "mask", "ix"), "2DRRUB": ("Assign2DRRUB", "ix", "mask"),
+}
+
+
+def gen_set_l1(t, sform, shape, mode, tier, agree=False):
+    """agree=True: the inputs are restricted to those on which the recorded known finding of this kernel cannot show (1DRVB: the true
+    bits form a prefix, so `i-th addressed` and `position i` coincide; 2DRRUB: the row index vector is [1, 2]), so that every OTHER
+    defect of the kernel is still a violation.
+    the plain-assignment struct `mode` built directly (as its dispatch arm builds it) with a symbolic sink, a symbolic source and
+    symbolic index vectors / masks; solve(); post-state against the reference model"""
+    R, C = shape
+    N = R * C
+    struct, rsel, csel = SET_L1[mode]
+    mat = {"RD": "RowDVector", "VD": "DVector", "MD": "DMatrix"}[sform]
+    vec_src = mode in ("1DRV", "1DRVB")
+    K = 2
+    b = [sym_array(t, "old", N), "let sc = Ref::new(%s);" % mk_form(sform, t, "old", shape)]
+    pre = []
+
+    def selector(kind, nm, dim):
+        """-> (decls, [(pos_expr, guard_expr)], IxVec elem type or None, ref expr)"""
+        if kind in ("ix", "lin-ix"):
+            d = ["let %s: [usize; %d] = kani::any();" % (nm, K), "let %sc = Ref::new(DVector::<usize>::from_vec(%s.to_vec()));" % (nm, nm)]
+            for k in range(K):
+                pre.append("%s[%d] >= 1 && %s[%d] <= %d" % (nm, k, nm, k, dim))
+            return d, [("(%s[%d] - 1)" % (nm, k), "true") for k in range(K)], "usize", "%sc.clone()" % nm
+        if kind in ("mask", "lin-mask"):
+            d = ["let %s: [bool; %d] = kani::any();" % (nm, dim), "let %sc = Ref::new(DVector::<bool>::from_vec(%s.to_vec()));" % (nm, nm)]
+            return d, [("%d" % i, "%s[%d]" % (nm, i)) for i in range(dim)], "bool", "%sc.clone()" % nm
+        if kind == "one":
+            d = ["let %s: usize = kani::any();" % nm, "let %sc = Ref::new(%s);" % (nm, nm)]
+            pre.append("%s >= 1 && %s <= %d" % (nm, nm, dim))
+            return d, [("(%s - 1)" % nm, "true")], None, "%sc.clone()" % nm
+        if kind == "all":
+            return [], [("%d" % i, "true") for i in range(dim)], None, None
+        raise ValueError(kind)
+
+    if csel is None:
+        d0, rows, ty0, ref0 = selector(rsel, "i0", N)
+        b += d0
+        cols, ty1, ref1 = None, None, None
+    else:
+        d0, rows, ty0, ref0 = selector(rsel, "i0", R)
+        d1, cols, ty1, ref1 = selector(csel, "i1", C)
+        b += d0 + d1
+    if vec_src:
+        if rsel == "lin-ix":
+            pre.append("i0[0] != i0[1]")
+            nsrc = K
+        else:
+            nsrc = N       # as long as the mask: a source with one element per true bit is a prefix of it
+        b.append(sym_array(t, "src", nsrc))
+        b.append("let rc = Ref::new(DVector::<%s>::from_vec(src.to_vec()));" % t)
+    else:
+        b.append(sym_stmt(t, "s"))
+        b.append("let rc = Ref::new(s.clone());")
+    if agree and mode == "1DRVB":
+        pre.append(" && ".join("(i0[%d] || !i0[%d])" % (i, i + 1) for i in range(N - 1)))
+    if agree and mode == "2DRRUB":
+        pre.append("i0[0] == 1 && i0[1] == 2")
+    if pre:
+        b.append("kani::assume(%s);" % " && ".join(pre))
+    b.append("let mut want: [%s; %d] = old.clone();" % (t, N))
+    if cols is None:
+        if vec_src and rsel == "lin-mask":
+            b.append("let mut nth: usize = 0;")
+            for pos, g in rows:
+                b.append("if %s { want[%s] = src[nth].clone(); nth += 1; }" % (g, pos))
+        else:
+            for k, (pos, g) in enumerate(rows):
+                val = ("src[%d].clone()" % k) if vec_src else "s.clone()"
+                b.append("if %s { want[%s] = %s; }" % (g, pos, val))
+    else:
+        for cpos, cg in cols:
+            for rpos, rg in rows:
+                b.append("if %s && %s { want[%s + %s * %d] = s.clone(); }" % (rg, cg, rpos, cpos, R))
+    # the struct
+    tys = [t, "%s<%s>" % (mat, t)]
+    if vec_src:
+        tys.append("DVector<%s>" % t)
+    for ty in (ty0, ty1):
+        if ty:
+            tys.append("DVector<%s>" % ty)
+    if csel is None or rsel == "all" or csel == "all":
+        ix = ref0 if ref0 else ref1
+    else:
+        ix = "(%s, %s)" % (ref0, ref1)
+    b.append("let f = %s::<%s> { source: rc.clone(), ixes: %s, sink: sc.clone(), _marker: ::std::marker::PhantomData };" % (struct, ", ".join(tys), ix))
+    b.append("f.solve();")
+    same = " && ".join(eq_expr(t, "cur[%d]" % q, "want[%d]" % q) for q in range(N))
+    b.append("{ let cur = sc.borrow(); assert!(cur.nrows() == %d && cur.ncols() == %d, \"VP:shape-changed\"); assert!(%s, \"VP:wrong-post-state\"); }" % (R, C, same))
+    b.append("f.solve();")
+    b.append("{ let cur = sc.borrow(); assert!(%s, \"VP:second-solve-differs\"); }" % same)
+    b.append("kani::cover!(true, \"VP:reached\");")
+    b.append("forget(f); forget(sc); forget(rc);")
+    name = "c04_l1_%s_%s%dx%d_%s%s" % (t.lower(), sform.lower(), R, C, mode.lower(), "_agree" if agree else "")
+    h = H(name, "    " + "\n    ".join(b), WHERE, domain="accept", key="L1/%s/%s/%s%s" % (struct, t, sform, "/agree" if agree else ""),
+          desc="%s<%s> on a %dx%d %s from an arbitrary pre-state (rows: %s, columns: %s, %s source): addressed elements hold the source%s, every other "
+               "element and the shape unchanged, a second solve changes nothing" % (struct, t, R, C, sform, rsel, csel or "-", "vector" if vec_src else "scalar",
+               " (i-th addressed element = i-th source element)" if vec_src else ""),
+          functions=["%s::solve (src/interpreter/src/stdlib/assign/matrix.rs: struct macro + kernel macro)" % struct],
+          bounds="sink %dx%d, all element values; index vectors of %d in-range indices (all values), masks of the dimension's length (all bit patterns)" % (R, C, K),
+          unwind=max(N, K) + 2, tier=tier, group="set-l1")
+    h.slice = slice_for(t)
     return h
 
 
@@ -341,6 +462,16 @@ def plan(tier, seed):
     for sform, shape in (("RD", (1, 3)), ("MD", (2, 2))):
         hs.append(gen("u8", sform, shape, ("S",), (0,), "scalar", "accept", "thorough"))
         hs.append(gen("i64", sform, shape, ("V",), (2,), "scalar", "accept", "thorough"))
+    # L1: every plain-assignment struct family, scalar sources for all index forms, vector sources for the 1-D forms
+    for k, mode in enumerate(SET_L1):
+        if mode.startswith("1D"):
+            for sf, sh in (("RD", (1, 3)), ("VD", (3, 1)), ("MD", (2, 2))):
+                hs.append(gen_set_l1("f64", sf, sh, mode, "quick" if sf == ["RD", "VD", "MD"][(k + seed) % 3] else "thorough"))
+        else:
+            hs.append(gen_set_l1("f64", "MD", (2, 3), mode, "quick"))
+            hs.append(gen_set_l1("u8", "MD", (3, 2), mode, "thorough"))
+    hs.append(gen_set_l1("f64", "VD", (3, 1), "1DRVB", "quick", agree=True))
+    hs.append(gen_set_l1("f64", "MD", (2, 3), "2DRRUB", "quick", agree=True))
     # op-assignment
     opa = []
     ops = ["Add", "Sub", "Mul", "Div"]
@@ -353,6 +484,7 @@ def plan(tier, seed):
         for k, (sf, sh, mode) in enumerate((("VD", (3, 1), "RS"), ("RD", (1, 3), "RB"), ("VD", (3, 1), "RV"), ("MD", (2, 2), "RVB"), ("MD", (2, 2), "AS"), ("MD", (2, 2), "ASB"),
                                             ("MD", (2, 2), "RS"), ("VD", (3, 1), "RB"), ("RD", (1, 3), "RV"), ("VD", (3, 1), "RVB"))):
             opa.append(gen_opa_index(op, tt, sf, sh, mode, "quick" if k < 6 and (k + n + seed) % 2 == 0 else "thorough"))
+        opa.append(gen_opa_index(op, tt, "VD", (3, 1), "RVB", "quick", agree=True))
     hs += opa
     src = read_repo("src/interpreter/src/stdlib/assign/matrix.rs")
     prelude, extracted = "", {}
